@@ -3,6 +3,7 @@ directions; the schema directory is listed in each of its 6 orders through an os
 import json
 import itertools
 import os
+import collections
 import random
 import types
 
@@ -78,6 +79,10 @@ STR_LENS = [0, 1, 2, 3, 4, 5, 7, 8, 252, 253, 254, 255, 256, 257, 1000]
 CHARS = 'abcXYZ019 _-./:éЖ中\U0001F600'
 EDGE_CHARS = ['\ufeff', '\x00', ' ', '\n', '\t', '\r', '\u2028', '\u0301', '\u200f', '\ufffe', '\x7f', '\xa0']
 
+
+
+class _AppDict(dict):
+    """An application's own dict subclass (adds nothing)."""
 
 class Gen:
     def __init__(self, rng, ref, extra_ids=()):
@@ -533,7 +538,13 @@ class TlWorld(HistoryWorld):
                 if len(iw) > 60000:
                     continue
                 set_path(v_ref, path, iw)
-                set_path(v_lib, path, dict(iv, **{'@type': ic.name}))
+                # the object as the application holds it: a plain dict, an OrderedDict (json.loads(object_pairs_hook=...)) or the
+                # application's own dict subclass - all of them ARE dicts
+                obj = dict(iv, **{'@type': ic.name})
+                if len(iw) % 3:
+                    obj = (collections.OrderedDict if len(iw) % 3 == 1 else _AppDict)(obj)
+                    ctx.probe('embedded-object-held-as-a-dict-subclass')
+                set_path(v_lib, path, obj)
                 done.append((path, ic, iv, iw))
             wire = ref.encode(c.name, v_ref)
         except (reftl.TlModelError, KeyError, TypeError, AttributeError, ValueError, OverflowError, IndexError):
